@@ -5,6 +5,7 @@ package main
 // semantics over a chain (what a client would expect), used by generators and by the oracles.
 
 import (
+	"encoding/hex"
 	"fmt"
 	"math/big"
 	"sort"
@@ -30,6 +31,16 @@ type OutInfo struct {
 	Addr   string // "u0", "m1" or "$"
 	Amt    *big.Int
 	Frozen int64
+	RawHex string // the amount bytes as spelled in the transaction when not big.Int.Bytes() (hex: "00", "0000", "0005"...) or ""
+}
+
+// amtBytes: the bytes of the output's amount as the transaction carries them
+func (o OutInfo) amtBytes() []byte {
+	if o.RawHex != "" {
+		b, _ := hex.DecodeString(o.RawHex)
+		return b
+	}
+	return o.Amt.Bytes()
 }
 type KIn struct {
 	Key       string
@@ -274,7 +285,11 @@ func (t *TxInfo) line(kind string, extra string) string {
 	sb.WriteString(" in=" + strings.Join(ins, ","))
 	var outs []string
 	for _, o := range t.Outs {
-		outs = append(outs, fmt.Sprintf("%s:%s:%d", o.Addr, amtStr(o.Amt), o.Frozen))
+		a := amtStr(o.Amt)
+		if o.RawHex != "" {
+			a = "x" + o.RawHex
+		}
+		outs = append(outs, fmt.Sprintf("%s:%s:%d", o.Addr, a, o.Frozen))
 	}
 	sb.WriteString(" out=" + strings.Join(outs, ","))
 	var kin []string
@@ -346,8 +361,14 @@ func parseOuts(s string) []OutInfo {
 	var out []OutInfo
 	for _, e := range splitList(s) {
 		p := strings.Split(e, ":")
-		a, _ := new(big.Int).SetString(p[1], 10)
 		f, _ := strconv.ParseInt(p[2], 10, 64)
+		if strings.HasPrefix(p[1], "x") {
+			// the amount spelled byte by byte (non-minimal encodings: leading zero bytes, the zero amount as 0x00)
+			b, _ := hex.DecodeString(p[1][1:])
+			out = append(out, OutInfo{Addr: p[0], Amt: new(big.Int).SetBytes(b), Frozen: f, RawHex: p[1][1:]})
+			continue
+		}
+		a, _ := new(big.Int).SetString(p[1], 10)
 		out = append(out, OutInfo{Addr: p[0], Amt: a, Frozen: f})
 	}
 	return out
